@@ -700,12 +700,31 @@ def main():
                         a3.append("%s:%d impl %s" % (e["file"], e["line"], e["impl"]))
         except Exception as e:
             a3 = []
+        # Code the contracts do not see (changed trees only).  Changed CODE lines outside every item any unit extracts (and outside
+        # test modules) in a crate this property's units draw code from: a helper nobody put under contract, a constructor, an error
+        # conversion, a Display impl.  The deductive verdict does not cover them; with no failing input from the bounded run the answer
+        # is UNDECIDED, not OK (exit 2 is not an alarm).
+        unc = []
+        try:
+            if tripwire is not None and tripwire.get("changed_files"):
+                bt = json.load(open(os.path.join(ROOT, "vc", "baseline_tree.json")))
+                crates = set()
+                for u in pcfg.get("units", []) + pcfg.get("kani", []):
+                    for f in unit_source_files(u): crates.add(f.split("/")[0])
+                if bt.get("commit"):
+                    unc = [l for l in update_baseline.uncovered_changes(a.repo, [f for f in changed if f.split("/")[0] in crates], bt["commit"])]
+        except Exception as e:
+            unc = []
         if tripwire is not None:
+            if unc: tripwire["changed_code_outside_every_contract"] = unc[:40]
             if a3: tripwire["assumption_A3_new_manual_impls"] = a3
             ev["coverage"]["tripwire"] = tripwire
             json.dump(ev, open(os.path.join(evdir, prop + ".json"), "w"), indent=1)
         if a3:
             print("UNDECIDED assumption A3 (derived / generated trait impls are structural, conversions only wrap, no Drop) is not known to hold on this tree: new hand-written %s; every obligation is discharged but the contracts do not see that code, and the bounded run found no failing input" % "; ".join(a3[:4]))
+            sys.exit(2)
+        if unc:
+            print("UNDECIDED every obligation is discharged and the bounded run found no failing input, but %d changed line(s) of code lie outside every function under contract (the verdict does not cover them): %s" % (len(unc), " | ".join(unc[:4])))
             sys.exit(2)
         print("OK property=%s obligations=%d discharged=%d units=%s wall=%.1fs" % (prop, obligations, discharged, ",".join(r["unit"] for r in results), wall))
         sys.exit(0)
